@@ -42,16 +42,29 @@ type c17Kind struct {
 	iter   func(ctx context.Context, cs *ClientSession) ([]string, error)
 }
 
+// c17Long: the name "b" (which has successors in the listing order) stands for a long one - as long as a tool name may be (128 characters), and
+// 300 characters for the other kinds (URIs and prompt names have no limit): cursors are made from ids.
+func c17Long(kind, n string) string {
+	if n != "b" {
+		return n
+	}
+	if kind == "tools" {
+		return "b" + strings.Repeat("x", 127)
+	}
+	return "b" + strings.Repeat("x", 299)
+}
+
 func c17Kinds() []c17Kind {
 	ks := c17KindsRaw()
 	for i := range ks {
-		if ks[i].name == "prompts" {
-			continue
-		}
 		k := ks[i]
-		ks[i].id = func(n string) string { return k.id(c17Alias(n)) }
-		ks[i].add = func(s *Server, n string, v int) { k.add(s, c17Alias(n), v) }
-		ks[i].remove = func(s *Server, n string) { k.remove(s, c17Alias(n)) }
+		alias := c17Alias
+		if k.name == "prompts" {
+			alias = func(n string) string { return n }
+		}
+		ks[i].id = func(n string) string { return k.id(c17Long(k.name, alias(n))) }
+		ks[i].add = func(s *Server, n string, v int) { k.add(s, c17Long(k.name, alias(n)), v) }
+		ks[i].remove = func(s *Server, n string) { k.remove(s, c17Long(k.name, alias(n))) }
 	}
 	return ks
 }
